@@ -37,7 +37,10 @@ CHECKS = {
              "with Readable() of the model state (tag C04.lost_wakeup); (b) event-loop executions (harness command L) on tcp, btcp, ux, uxf, "
              "tls, btls, utls: the applications trust only poll(xcm_fd), every call is validated as a trace step, and a run that gets stuck "
              "with something owed (message accepted but undelivered, send still wanted, close unseen) is a lost wake-up; (c) blocking calls "
-             "run in a helper thread and a call that has not returned although the model says its event happened is C04.blocked.",
+             "run in a helper thread and a call that has not returned although the model says its event happened is C04.blocked; (d) establishment "
+             "scenarios (harness/est_exec, spec/XcmEst.tla) and the hang verdicts of the multi-address connect harness; (e) spec/TimerMgr.tla "
+             "(one timerfd for all timers of a socket, armed for the earliest pending expiry) model-checked and replayed in real time on "
+             "the real timer_mgr.c: a pending timer that has certainly expired makes the socket's descriptor readable (spec/TimerMgrTrace.tla).",
         ref="5/C04", tech="TLA+ model checking with fairness (TLC liveness) + trace validation of event-loop executions",
         note=CONN_NOTE + " 'Within bounded time' is judged only as: no descriptor readable for 1.5 s while the trace specification says something "
              "is owed; establishment phases (resolution, TCP connect, TLS handshake) are covered by the C13/C05 machinery, not here."),
@@ -77,7 +80,9 @@ CHECKS = {
              "Establishment-phase scenarios (server sockets idle / pending, an idle connection looked at after the connect time-out). "
              "Underneath: spec/XPoll.tla (libxcm/core/xpoll.c as a step function; KernelView, Readable, PoolUser, Ids, Frugal) "
              "model-checked and replayed on the real xpoll.c / active_fd.c, with the kernel's own report of the epoll interest list "
-             "validated call by call against the same step function (spec/XPollTrace.tla).",
+             "validated call by call against the same step function (spec/XPollTrace.tla); spec/TimerMgr.tla (libxcm/core/timer_mgr.c: one "
+             "timerfd for all timers of a socket) model-checked and replayed in real time on the real timer_mgr.c, the descriptor "
+             "being quiet while no timer can have expired (spec/TimerMgrTrace.tla).",
         ref="5/C16", tech="TLA+ model checking (TLC) + trace validation of readiness after every step"),
     "C17": dict(
         text="C17_Counters / C17_Quiescent on spec/Xcm.tla (tcp, btcp, ux); on the real code all eight counters of both endpoints are "
